@@ -313,7 +313,8 @@ static std::vector<long> mismatch_positions(size_t n, vf::Rng& r) {
 
 static void kernel_pairs(size_t n, vf::Rng& r) {
   std::string base(n, 0);
-  for (auto& ch : base) ch = (char)r.range(1, 255);
+  int zmode = (int)r.below(3);  // 0: no NUL bytes, 1: some, 2: mostly NUL (implicit-length string instructions stop at NUL)
+  for (auto& ch : base) ch = zmode == 0 ? (char)r.range(1, 255) : zmode == 1 ? (char)(r.below(6) ? r.range(1, 255) : 0) : (char)(r.below(4) ? 0 : r.range(1, 255));
   auto positions = mismatch_positions(n, r);
   {
     std::string w = "InlinedMemcmpEq/InlinedMemcmp, length " + std::to_string(n) + ", first-difference positions {";
